@@ -44,8 +44,9 @@ import (
 )
 
 const (
-	v15LiveDeadline = 30 * time.Second // liveness waits; expiry = inconclusive
-	v15Grace        = 5 * time.Second  // tolerated lag between the server's event and the census
+	v15StallDeadline = 10 * time.Second // wait for the end of a connection before the server's health is witnessed
+	v15LiveDeadline  = 30 * time.Second // liveness waits; expiry = inconclusive
+	v15Grace         = 5 * time.Second  // tolerated lag between the server's event and the census
 )
 
 var (
@@ -92,6 +93,15 @@ type v15Mon struct {
 	refused map[string]int
 	trace   []string
 	gate    *v15Gate
+	omu     sync.Mutex
+	onN     map[string]int // LogOnlineState(id, true) calls that returned
+	offN    map[string]int // LogOnlineState(id, false) calls that returned
+}
+
+func (m *v15Mon) onlineCalls(id string) (on, off int) {
+	m.omu.Lock()
+	defer m.omu.Unlock()
+	return m.onN[id], m.offN[id]
 }
 
 func (m *v15Mon) LogTraffic(id string, tx, rx uint64) bool {
@@ -125,6 +135,16 @@ func (m *v15Mon) LogOnlineState(id string, online bool) {
 		m.gate.enter(v15GOffline)
 	}
 	m.inner.LogOnlineState(id, online)
+	m.omu.Lock()
+	if m.onN == nil {
+		m.onN, m.offN = map[string]int{}, map[string]int{}
+	}
+	if online {
+		m.onN[id]++
+	} else {
+		m.offN[id]++
+	}
+	m.omu.Unlock()
 	m.gate.leave()
 }
 func (m *v15Mon) TraceStream(s server.HyStream, st *server.StreamStats) {
@@ -171,10 +191,10 @@ func (e *v15Events) Disconnect(addr net.Addr, id string, err error) {
 	e.mu.Unlock()
 	e.gate.leave()
 }
-func (e *v15Events) TCPRequest(addr net.Addr, id, reqAddr string)                      {}
-func (e *v15Events) TCPError(addr net.Addr, id, reqAddr string, err error)             {}
-func (e *v15Events) UDPRequest(addr net.Addr, id string, sessionID uint32, r string)   {}
-func (e *v15Events) UDPError(addr net.Addr, id string, sessionID uint32, err error)    {}
+func (e *v15Events) TCPRequest(addr net.Addr, id, reqAddr string)                    {}
+func (e *v15Events) TCPError(addr net.Addr, id, reqAddr string, err error)           {}
+func (e *v15Events) UDPRequest(addr net.Addr, id string, sessionID uint32, r string) {}
+func (e *v15Events) UDPError(addr net.Addr, id string, sessionID uint32, err error)  {}
 func (e *v15Events) counts(addr string) (c, d int, lastErr string) {
 	e.mu.Lock()
 	defer e.mu.Unlock()
@@ -472,10 +492,78 @@ func TestVerifC15_OnlineE2E(t *testing.T) {
 				ntDisc = true
 			}
 		}
+		// witness: the full lifecycle of a fresh connection with a fresh, non-empty id on the same
+		// server: auth -> online(true) + Connect, hang up -> online(false) + Disconnect.
+		witnessN := 0
+		var witnessRaws []*v15Raw
+		defer func() {
+			for _, r := range witnessRaws {
+				r.release()
+			}
+		}()
+		witness := func() error {
+			witnessN++
+			id := fmt.Sprintf("witness-%d", witnessN)
+			raw, err := v15RawDial(pc.LocalAddr())
+			if err != nil {
+				return err
+			}
+			witnessRaws = append(witnessRaws, raw)
+			on0, off0 := mon.onlineCalls(id)
+			status, err := raw.auth("ok:" + id)
+			if err != nil || status != v15StatusAuthOK {
+				return fmt.Errorf("witness auth: status %d err %v", status, err)
+			}
+			if !v15WaitUntil(v15LiveDeadline, func() bool { cc, _, _ := ev.counts(raw.addr); on, _ := mon.onlineCalls(id); return cc > 0 && on > on0 }) {
+				return fmt.Errorf("witness connection was not reported online")
+			}
+			raw.hangUp()
+			if !v15WaitUntil(v15LiveDeadline, func() bool { _, d, _ := ev.counts(raw.addr); _, off := mon.onlineCalls(id); return d > 0 && off > off0 }) {
+				return fmt.Errorf("witness connection was not reported offline")
+			}
+			return nil
+		}
+		// missingEnd is called when the server has not reported the end of connection c by the
+		// stall deadline. It decides between "the environment is slow" (inconclusive) and "the
+		// report is missing although the server is healthy" (violation): two fresh connections
+		// made AFTER the deadline go through their full reported lifecycle while c's is still open.
+		// Returns normally if c's end was reported after all.
+		missingEnd := func(c *v15Client, why string) {
+			gate.open()
+			checkMonitor()
+			arrived := func() bool { _, d, _ := ev.counts(c.addr); return d > c.baseDisc }
+			msg := fmt.Sprintf("C15 e2e: the server did not report the disconnect of connection #%d (%s) within the liveness deadline", c.n, why)
+			if srvClosed {
+				if !v15WaitUntil(v15LiveDeadline, arrived) {
+					vInconclusive(msg + " (server already shut down: no witness possible)")
+				}
+				return
+			}
+			if c.raw != nil && c.raw.qc.Context().Err() == nil {
+				vInconclusive(msg + " (client side of the connection is not closed)")
+			}
+			for i := 0; i < 2; i++ {
+				if arrived() {
+					return
+				}
+				if err := witness(); err != nil {
+					if arrived() {
+						return
+					}
+					vInconclusive(msg + "; witness connection failed too: " + err.Error())
+				}
+			}
+			if arrived() {
+				return
+			}
+			on, off := mon.onlineCalls(c.user)
+			classes["witnessed-stall"] = true
+			fail("online(true) for id %q never balanced by online(false): connection #%d (%s) ended on the client side at least %v ago, and the full lifecycle (online, Connect, offline, Disconnect) of 2 later connections was reported meanwhile; LogOnlineState(%q) calls so far: %d online, %d offline; /online still lists what it lists below",
+				c.user, c.n, why, v15StallDeadline, c.user, on, off)
+		}
 		awaitDisconnect := func(c *v15Client, why string) {
-			if !v15WaitUntil(v15LiveDeadline, func() bool { _, d, _ := ev.counts(c.addr); return d > c.baseDisc }) {
-				checkMonitor()
-				vInconclusive(fmt.Sprintf("C15 e2e: the server did not report the disconnect of connection #%d (%s) within the liveness deadline", c.n, why))
+			if !v15WaitUntil(v15StallDeadline, func() bool { _, d, _ := ev.counts(c.addr); return d > c.baseDisc }) {
+				missingEnd(c, why)
 			}
 		}
 		// traffic on one connection; returns after the report(s) were made
@@ -746,7 +834,7 @@ func TestVerifC15_OnlineE2E(t *testing.T) {
 					}
 				}
 				// settle: release whatever parks, until the server has reported everything
-				settled := v15WaitUntil(v15LiveDeadline, func() bool {
+				settled := v15WaitUntil(v15StallDeadline, func() bool {
 					if gate.parked() > 0 {
 						gate.releaseParked()
 					}
@@ -754,6 +842,13 @@ func TestVerifC15_OnlineE2E(t *testing.T) {
 					return cc > 0 && (!closeNow || d > 0) && gate.quiet()
 				})
 				gate.open()
+				if !settled {
+					if cc, _, _ := ev.counts(cl.addr); cc > 0 && closeNow && v15WaitUntil(v15LiveDeadline, gate.quiet) {
+						// reported online, hung up, end not reported
+						missingEnd(cl, "the client hung up right after its auth answer")
+						settled = true
+					}
+				}
 				if !settled {
 					vInconclusive("C15 e2e: the server did not report a connection made with slow loggers within the liveness deadline")
 				}
@@ -783,9 +878,8 @@ func TestVerifC15_OnlineE2E(t *testing.T) {
 					slowNames = append(slowNames, v15GNames[v15GDisconnectEv])
 				}
 				c.hangUp()
-				if !v15WaitUntil(v15LiveDeadline, func() bool { return gate.parked() > 0 }) {
-					gate.open()
-					vInconclusive("C15 e2e: the server did not notice a closed connection within the liveness deadline")
+				if !v15WaitUntil(v15StallDeadline, func() bool { return gate.parked() > 0 }) {
+					missingEnd(c, "the client closed it; loggers armed to be slow") // opens the gate
 				}
 				var nc *v15Client
 				if nested {
@@ -822,6 +916,12 @@ func TestVerifC15_OnlineE2E(t *testing.T) {
 					return d > c.baseDisc && ncOK && gate.quiet()
 				})
 				gate.open()
+				if !settled {
+					if nc == nil || func() bool { cc, _, _ := ev.counts(nc.addr); return cc > 0 }() {
+						missingEnd(c, "the client closed it while the loggers were slow")
+						settled = v15WaitUntil(v15LiveDeadline, gate.quiet)
+					}
+				}
 				if !settled {
 					vInconclusive("C15 e2e: the server did not report a disconnect made with slow loggers within the liveness deadline")
 				}
